@@ -261,7 +261,8 @@ def one_history(ctx, gid, n_steps, mon):
                     i = r.randrange(a.dimension)
                     if r.random() < 0.5:
                         desc = ("ChangingIndex", type(a).__name__)
-                        amount = r.choice([5.0, (5.0,), Scalar(a.GetQuantity(), 5.0)])
+                        anyu = r.choice(units_for(a) + ["m", "s"])
+                        amount = r.choice([5.0, (5.0,), Scalar(a.GetQuantity(), 5.0), Scalar(5.0, anyu), (5.0, anyu), Scalar(5.0, anyu)])
                         res = a.ChangingIndex(i, amount, r.choice([True, False]))
                     else:
                         desc = ("IndexAsScalar", type(a).__name__)
